@@ -248,6 +248,20 @@ def main(tier, seed):
             ops.append(("cdeliver", p, i, "SA"))                        # duplicate after completion
         traces.append(record(rng.choice([0, 250]), ops))
         chk.case(("c40", n), nontrivial=True, n=len(ops))
+    # every order of application-chosen IDs next to the cursor, followed by automatic allocations: the allocator must skip all
+    # of them whatever order the transactions were started in (and wrap correctly)
+    import itertools
+    pn = 0
+    for cur in (0, 100, 253, 254, 255):
+        for size in (1, 2, 3):
+            for offs in itertools.permutations(range(0, 4), size):
+                ops = [("chosen", 1, (cur + o) % 256, "") for o in offs]
+                ops += [("chosen", 2, (cur + offs[0]) % 256, "")]          # the same ID toward another peer must not matter
+                ops += [("auto", 1, 0, ""), ("auto", 1, 0, ""), ("auto", 2, 0, "")]
+                traces.append(record(cur, ops))
+                pn += 1
+                chk.case(("perm", cur, offs), nontrivial=True, n=len(ops))
+    chk.extra["chosen_id_permutation_histories"] = pn
     for i, t in enumerate(traces):
         t["tid"] = i + 1
     chk.sample({"start": traces[0]["start"], "first_ops": traces[0]["ops"][:15], "last_tables": {k: traces[0]["evs"][-1]["st"][k] for k in ("nextId", "ctab", "stab")}})
